@@ -817,6 +817,144 @@ def shared_prefix_cells(ctx):
             ctx.outcome("after-removal-silent")
 
 
+def declared_cells(ctx):
+    """handlers declared with the decorators on List / Set / Instance links:
+    (a) removing the registration by name stops all calls, (b) a group in
+    brackets followed by ':' stays silent for its links, (c) a subclass that
+    overrides a decorated method with a plain one withdraws the registration -
+    each exactly as the observe twin"""
+    from traits.api import (HasTraits, Instance, Int, List, Set, observe,
+                            on_trait_change)
+
+    class Leaf(HasTraits):
+        value = Int
+        __hash__ = object.__hash__
+
+    def mk(legacy_name, observe_name):
+        class D(HasTraits):
+            ref = Instance(Leaf)
+            left = Instance(Leaf)
+            kids = List(Instance(Leaf))
+            bag = Set(Instance(Leaf))
+            lcalls = List()
+            ocalls = List()
+
+            @on_trait_change(legacy_name)
+            def _lh(self, obj, name, old, new):
+                self.lcalls.append(name)
+
+            @observe(observe_name)
+            def _oh(self, event):
+                self.ocalls.append(getattr(event, "name", "items"))
+        return D
+
+    def poke(d, leaves):
+        del d.lcalls[:], d.ocalls[:]
+        for x in leaves:
+            x.value += 1
+        return len(d.lcalls), len(d.ocalls)
+    # (a) removal of a declared registration
+    for lname, oname, fill in (
+            ("kids:value", "kids:items:value",
+             lambda d, xs: setattr(d, "kids", xs)),
+            ("bag:value", "bag:items:value",
+             lambda d, xs: setattr(d, "bag", set(xs))),
+            ("ref:value", "ref:value",
+             lambda d, xs: setattr(d, "ref", xs[0]))):
+        for when in ("constructor", "later"):
+            case = {"declared": "removal", "name": lname, "when": when}
+            ctx.case(case)
+            ctx.ev()
+            ctx.tr()
+            hist = [["declared-removal", lname, when]]
+            D = mk(lname, oname)
+            xs = [Leaf(), Leaf()]
+            if when == "constructor":
+                key = lname.split(":")[0]
+                d = D(**{key: {"kids": xs, "bag": set(xs),
+                               "ref": xs[0]}[key]})
+            else:
+                d = D()
+                fill(d, xs)
+            watched = xs[:1] if lname.startswith("ref") else xs
+            got = poke(d, watched)
+            if got[0] != got[1]:
+                ctx.violation(
+                    "C16:declared:calls", "declared %r (%s): %d legacy calls, "
+                    "observe twin %d" % (lname, when, got[0], got[1]),
+                    history=hist)
+                continue
+            d.on_trait_change(d._lh, lname, remove=True)
+            d.observe(d._oh, oname, remove=True)
+            got = poke(d, watched)
+            if got != (0, 0):
+                ctx.violation(
+                    "C16:declared:after-removal", "declared %r (%s): after "
+                    "the registration was removed by name the handler was "
+                    "called %d time(s) (observe twin %d)" % (
+                        lname, when, got[0], got[1]), history=hist)
+            else:
+                ctx.outcome("after-removal-silent")
+    # (b) a bracketed group followed by ':'
+    for lname, oname in (("[ref,left]:value", "[ref,left]:value"),
+                         ("[ref,kids]:value", "[ref,kids:items]:value")):
+        case = {"declared": "group-colon", "name": lname}
+        ctx.case(case)
+        ctx.ev()
+        ctx.tr()
+        hist = [["declared-group", lname]]
+        d = mk(lname, oname)()
+        errs = []
+        try:
+            d.ref = Leaf()
+            d.left = Leaf()
+            d.kids = [Leaf()]
+            d.kids.append(Leaf())
+        except Exception as exc:
+            errs.append(repr(exc))
+        if errs or len(d.lcalls) != len(d.ocalls):
+            ctx.violation(
+                "C16:declared:group-colon", "%r: re-assigning / mutating the "
+                "grouped links gave %d legacy call(s) %r%s, observe twin %d"
+                % (lname, len(d.lcalls), list(d.lcalls),
+                   " and raised %s" % errs if errs else "", len(d.ocalls)),
+                history=hist)
+            continue
+        got = poke(d, [d.ref, d.left] + (list(d.kids) if "kids" in lname
+                                         else []))
+        if got[0] != got[1]:
+            ctx.violation("C16:declared:group-leaf", "%r: %d legacy calls "
+                          "for the leaves, observe twin %d" % (
+                              lname, got[0], got[1]), history=hist)
+        else:
+            ctx.outcome("link-silent-colon")
+    # (c) decorated method overridden by a plain one in a subclass
+    case = {"declared": "override"}
+    ctx.case(case)
+    ctx.ev()
+    ctx.tr()
+    Base = mk("ref.value, kids.value", "ref.value, kids.items.value")
+
+    class Quiet(Base):
+        def _lh(self, obj, name, old, new):
+            self.lcalls.append("override")
+
+        def _oh(self, event):
+            self.ocalls.append("override")
+    q = Quiet()
+    q.ref = Leaf()
+    q.kids = [Leaf()]
+    got = poke(q, [q.ref] + list(q.kids))
+    if got[0] != got[1]:
+        ctx.violation(
+            "C16:declared:override", "a subclass overrides the decorated "
+            "handlers with plain methods: the legacy one was called %d "
+            "time(s), the observe twin %d" % got,
+            history=[["declared-override"]])
+    else:
+        ctx.outcome("after-removal-silent")
+
+
 def link_report_cells(ctx):
     """a re-assigned '.' link is itself reported, once, to a handler of
     every signature - from None as well as from another object - exactly
@@ -981,6 +1119,7 @@ def run_shard(ctx, shard, tier):
         signature_cells(ctx)
         link_report_cells(ctx)
         shared_prefix_cells(ctx)
+        declared_cells(ctx)
         ctx.depth_completed = 1
         return
     evs = menu(pair)
@@ -1016,6 +1155,11 @@ def replay(rec):
     from mc.ctx import Ctx
     ctx = Ctx("C16", None, "quick", 0)
     c = rec.get("case") or rec
+    if "declared" in c:
+        declared_cells(ctx)
+        for v in ctx.violations.values():
+            print("  violation:", v["sig"], v["msg"])
+        return not ctx.violations
     if "shared_prefix" in c:
         shared_prefix_cells(ctx)
         for v in ctx.violations.values():
